@@ -467,6 +467,15 @@ class Unit:
                     self.module_names[a.asname or a.name] = (a.name, None)
             elif isinstance(node, ast.Expr) and isinstance(node.value, ast.Constant):
                 pass
+            elif (isinstance(node, ast.Assign) and len(node.targets) == 1 and isinstance(node.targets[0], ast.Name)
+                  and isinstance(node.value, ast.Attribute) and isinstance(node.value.value, ast.Name)
+                  and node.value.value.id in self.module_names
+                  and self.bound_once(node.targets[0].id) and self.bound_once(node.value.value.id)):
+                # X = <imported module>.<name> at module level, X and the module name bound nowhere else:
+                # the same binding as `from <module> import <name> as X`
+                m, o = self.module_names[node.value.value.id]
+                self.module_names[node.targets[0].id] = ((m if o is None else (m + "." + o if m else o)),
+                                                         node.value.attr)
             else:
                 self.module_ok = False
                 self.module_problem = "module-level statement %s" % type(node).__name__
@@ -507,6 +516,21 @@ class Unit:
         self.check_imports()
         self.check_init()
         self.value_errors = read_value_errors()
+
+    def bound_once(self, name):
+        n = 0
+        for x in ast.walk(self.tree):
+            if isinstance(x, ast.Name) and x.id == name and not isinstance(x.ctx, ast.Load):
+                n += 1
+            elif isinstance(x, ast.arg) and x.arg == name:
+                n += 1
+            elif isinstance(x, (ast.FunctionDef, ast.ClassDef)) and x.name == name:
+                n += 1
+            elif isinstance(x, (ast.Global, ast.Nonlocal)) and name in x.names:
+                n += 1
+            elif isinstance(x, (ast.Import, ast.ImportFrom)):
+                n += sum(1 for a in x.names if (a.asname or a.name).split(".")[0] == name)
+        return n == 1
 
     def check_imports(self):
         want = {"TimePoint": ("data", "TimePoint"), "TimePointDumper": ("dumpers", "TimePointDumper"),
